@@ -3,6 +3,7 @@ package rules
 import (
 	"fmt"
 	"go/ast"
+	"go/token"
 	"go/types"
 	yaml "gopkg.in/yaml.v3"
 	"os"
@@ -92,7 +93,11 @@ func runC18(c *Ctx) {
 			})
 		}
 	}
-	for _, want := range []string{"Upgrade", "ListRevisions", "shouldSyncLabels"} {
+	gateFn := "shouldSyncLabels"
+	if c.P.Func(load.CtrlPkg, gateFn) == nil && c.renames()[load.CtrlPkg+"|"+gateFn] == nil {
+		gateFn = "adoptOrphanRevisions" // the marker test is written out where the labels are synced
+	}
+	for _, want := range []string{"Upgrade", "ListRevisions", gateFn} {
 		c.Check(len(uses[want]) > 0, "C18.3-marker-agreement", want+": uses helper.UpgradeToAdvancedStatefulSetAnn", 0, "refers to the one marker constant", want+" does not use the shared upgrade-marker constant: writer and reader can disagree")
 	}
 	// values: Upgrade writes sts.Name (C17.2-relabel-sets-marker), ListRevisions selects set.Name
@@ -128,20 +133,28 @@ func runC18(c *Ctx) {
 		var syncCall, adoptCall *ast.CallExpr
 		m := ifaceMethod(c.P, load.CtrlPkg, "StatefulSetControlInterface", "AdoptOrphanRevisions")
 		sl := c.Func(load.CtrlPkg, "syncLabels")
-		ssl := c.Func(load.CtrlPkg, "shouldSyncLabels")
-		for _, call := range callsIn(ao.Decl.Body, false) {
-			f := gf.StaticCallee(info, call)
-			if f == m {
-				adoptCall = call
-			}
-			if sl != nil && f != nil && f.Origin() == sl.Obj {
-				syncCall = call
+		var ssl *load.FuncInfo
+		if gateFn == "shouldSyncLabels" {
+			ssl = c.Func(load.CtrlPkg, "shouldSyncLabels")
+		}
+		// the adoption may sit in a helper the engine expands into adoptOrphanRevisions: hostBody is the body holding it
+		hostBody := ao.Decl.Body
+		for _, bd := range fn.Bodies() {
+			for _, call := range callsIn(bd, false) {
+				f := gf.StaticCallee(info, call)
+				if f == m {
+					adoptCall = call
+					hostBody = bd
+				}
+				if sl != nil && f != nil && f.Origin() == sl.Obj {
+					syncCall = call
+				}
 			}
 		}
 		ok := false
-		if syncCall != nil && adoptCall != nil {
+		if syncCall != nil && adoptCall != nil && contains(hostBody, syncCall) {
 			// the sync loop is a statement of the same block before the adoption
-			blk := enclosingBlock(ao.Decl.Body, adoptCall)
+			blk := enclosingBlock(hostBody, adoptCall)
 			is, ia := -1, -1
 			for i, s := range blk.List {
 				if contains(s, syncCall) {
@@ -153,28 +166,60 @@ func runC18(c *Ctx) {
 			}
 			ok = is >= 0 && is < ia
 			// the sync is applied to every revision with the marker: range over all listed revisions, guarded only by shouldSyncLabels
-			if loop, isR := innermostLoop(ao.Decl.Body, syncCall).(*ast.RangeStmt); isR && ssl != nil {
+			if loop, isR := innermostLoop(hostBody, syncCall).(*ast.RangeStmt); isR {
 				cell := loopCell(loop)
 				_, an := c.Analysis(ao)
-				if cell != nil {
+				head := loopHead(fn, loop)
+				switch {
+				case cell == nil || head == nil:
+					ok = false
+				case ssl != nil:
 					start := loop.Body.List[0]
-					want := gf.FBool(gf.CallT(ssl.Obj.FullName(), types.Typ[types.Bool], fn.Term(cell)))
-					_ = want
-					pred := c.E.Canon.Formula(info, &ast.CallExpr{Fun: &ast.Ident{Name: "shouldSyncLabels"}, Args: []ast.Expr{cell}})
-					_ = pred
 					aU := fn.FromUntil(start, an.StateBefore(start).Assume(c.Want(fn, loop.Body.Pos(), "shouldSyncLabels($1)", cell)), syncCall)
-					if head := loopHead(fn, loop); head != nil && aU.BlockReached(head) {
+					if aU.BlockReached(head) {
 						ok = false
 					}
-				} else {
-					ok = false
+				default:
+					// no predicate helper: the marker is looked up in the cell's labels in the loop itself. The lookup is
+					// passed on every iteration, and with the marker found the iteration does not end without the sync
+					var lookup *ast.AssignStmt
+					var found ast.Expr
+					ownNodes(loop.Body, func(x ast.Node) {
+						as, isAs := x.(*ast.AssignStmt)
+						if !isAs || len(as.Lhs) != 2 || len(as.Rhs) != 1 {
+							return
+						}
+						if ix, isIx := ast.Unparen(as.Rhs[0]).(*ast.IndexExpr); isIx {
+							if id := identOfSel(ix.Index); id != nil && info.Uses[id] == marker {
+								if lt := c.TryWantTerm(fn, as.Pos(), "$1.Labels", cell); lt != nil && fn.Term(ix.X).Key() == lt.Key() {
+									lookup, found = as, as.Lhs[1]
+								}
+							}
+						}
+					})
+					if lookup == nil {
+						ok = false
+						break
+					}
+					start := loop.Body.List[0]
+					if aB := fn.FromUntil(start, an.StateBefore(start), lookup); aB.BlockReached(head) {
+						ok = false
+					}
+					aU := fn.FromAfterUntil(lookup, an.StateAfter(lookup).Assume(gf.FBool(fn.Term(found))), syncCall)
+					if aU.BlockReached(head) {
+						ok = false
+					}
 				}
 			} else {
 				ok = false
 			}
 		}
 		c.Check(ok, "C18.4-sync-before-adopt", "adoptOrphanRevisions", ao.Decl.Pos(), "every marked revision is label-synced before the adoption call", "marked revisions are not all label-synced before adoption")
+		if adoptCall != nil {
+			c.orphansAllAdopted(ao, hostBody, adoptCall, syncCall)
+		}
 	}
+	c.listingKeepsEveryRevision()
 	if sl := c.Func(load.CtrlPkg, "syncLabels"); sl != nil {
 		fn, _ := c.Analysis(sl)
 		info := sl.Pkg.TypesInfo
@@ -203,43 +248,62 @@ func runC18(c *Ctx) {
 		_ = info
 		c.Check(copied && updated, "C18.4-sync-copies-template-labels", "syncLabels", sl.Decl.Pos(), "copies every template label onto the revision and issues ControllerRevisions.Update for it", "the label sync does not copy the template labels or does not write the revision")
 	}
-	if ssl := c.Func(load.CtrlPkg, "shouldSyncLabels"); ssl != nil {
-		// true exactly when the marker key is present
+	if ssl := c.P.Func(load.CtrlPkg, "shouldSyncLabels"); gateFn == "shouldSyncLabels" && (ssl != nil || c.Func(load.CtrlPkg, "shouldSyncLabels") != nil) {
+		if ssl == nil {
+			ssl = c.Func(load.CtrlPkg, "shouldSyncLabels")
+		}
+		// the result is true exactly when the marker key is present in the revision's labels: at every return,
+		// "result" implies the comma-ok flag of the lookup, and "not result" implies the flag is false or the map is nil
 		fn := c.E.FnOf(ssl)
 		fn.KeepDead = true
 		an := fn.Analyze(nil)
 		fn.KeepDead = false
 		info := ssl.Pkg.TypesInfo
-		ok := true
-		nTrue := 0
-		ast.Inspect(ssl.Decl.Body, func(x ast.Node) bool {
-			ret, isRet := x.(*ast.ReturnStmt)
-			if !isRet || len(ret.Results) != 1 || fn.Formula(ret.Results[0]) != gf.True {
-				return true
-			}
-			nTrue++
-			// dominated by `_, ok := labels[marker]; ok`
-			found := false
-			p := pathTo(ssl.Decl.Body, ret)
-			for j := len(p) - 1; j >= 0; j-- {
-				if ifs, isIf := p[j].(*ast.IfStmt); isIf && ifs.Init != nil {
-					if ias, isAs := ifs.Init.(*ast.AssignStmt); isAs && len(ias.Lhs) == 2 {
-						if ix, isIx := ias.Rhs[0].(*ast.IndexExpr); isIx {
-							if id := identOfSel(ix.Index); id != nil && info.Uses[id] == marker {
-								if good, _ := an.StateBefore(ret).Implies(gf.FBool(fn.Term(ias.Lhs[1]))); good {
-									found = true
-								}
-							}
+		var okVar, mapExpr ast.Expr
+		for _, bd := range fn.Bodies() {
+			ast.Inspect(bd, func(x ast.Node) bool {
+				if as, isAs := x.(*ast.AssignStmt); isAs && len(as.Lhs) == 2 && len(as.Rhs) == 1 {
+					if ix, isIx := ast.Unparen(as.Rhs[0]).(*ast.IndexExpr); isIx {
+						if id := identOfSel(ix.Index); id != nil && info.Uses[id] == marker {
+							okVar, mapExpr = as.Lhs[1], ix.X
 						}
 					}
 				}
-			}
-			if !found {
-				ok = false
-			}
-			return true
-		})
-		c.Check(ok && nTrue == 1, "C18.3-sync-predicate", "shouldSyncLabels", ssl.Decl.Pos(), "true exactly when the revision carries the upgrade marker label", "the label-sync predicate does not test the upgrade marker")
+				return true
+			})
+		}
+		ok := okVar != nil
+		nRet := 0
+		why := "the predicate has no comma-ok lookup of the upgrade marker"
+		if ok {
+			present := gf.FBool(fn.Term(okVar))
+			absent := gf.Or(gf.Not(present), gf.FNil(fn.Term(mapExpr)))
+			ownNodes(ssl.Decl.Body, func(x ast.Node) {
+				ret, isRet := x.(*ast.ReturnStmt)
+				if !isRet || len(ret.Results) != 1 {
+					return
+				}
+				nRet++
+				st := an.StateBefore(ret)
+				if !st.Reachable() {
+					return
+				}
+				r := fn.Formula(ret.Results[0])
+				if yes := st.Assume(r); yes.Reachable() {
+					if g, _ := yes.Implies(present); !g {
+						ok = false
+						why = "returns true at " + c.P.Pos(ret.Pos()) + " without the marker lookup having succeeded"
+					}
+				}
+				if no := st.Assume(gf.Not(r)); no.Reachable() {
+					if g, _ := no.Implies(absent); !g {
+						ok = false
+						why = "returns false at " + c.P.Pos(ret.Pos()) + " for a revision that may carry the marker: it is never label-synced, so the selector never finds it"
+					}
+				}
+			})
+		}
+		c.Check(ok && nRet >= 1, "C18.3-sync-predicate", "shouldSyncLabels", ssl.Decl.Pos(), "true exactly when the revision carries the upgrade marker label", "the label-sync predicate is not \"the marker is present\": "+why)
 	}
 	_ = fmt.Sprint
 }
@@ -321,4 +385,206 @@ func (c *Ctx) templateStoredUnpruned() {
 		}
 	}
 	c.Floor("C18.1-template-schema-nodes", n, 1)
+}
+
+// orphansAllAdopted: (a) the slice handed to the adoption holds every listed revision without a controller: it is the
+// listing itself, or it is filled by a loop over the listing no iteration of which can end for an orphan without the
+// append; (b) once the label sync has started, the function ends in the adoption or in a non-nil error.
+func (c *Ctx) orphansAllAdopted(ao *load.FuncInfo, hostBody *ast.BlockStmt, adoptCall, syncCall *ast.CallExpr) {
+	fn, an := c.Analysis(ao)
+	info := ao.Pkg.TypesInfo
+	if len(adoptCall.Args) < 2 {
+		c.Unk("C18.4-every-orphan-adopted", "adoptOrphanRevisions", adoptCall.Pos(), "the adoption call has no revisions argument")
+		return
+	}
+	arg := ast.Unparen(adoptCall.Args[1])
+	// the listing variable (assigned from ListRevisions in the function or in an expanded helper)
+	var listing types.Object
+	for _, bd := range fn.Bodies() {
+		ownNodes(bd, func(x ast.Node) {
+			as, ok := x.(*ast.AssignStmt)
+			if !ok || len(as.Rhs) != 1 || len(as.Lhs) != 2 {
+				return
+			}
+			if call, ok := ast.Unparen(as.Rhs[0]).(*ast.CallExpr); ok {
+				if f := gf.StaticCallee(info, call); f != nil && f.Name() == "ListRevisions" {
+					if id, ok := as.Lhs[0].(*ast.Ident); ok {
+						listing = info.ObjectOf(id)
+					}
+				}
+			}
+		})
+	}
+	isListing := func(at ast.Node, e ast.Expr) bool {
+		if listing == nil {
+			return false
+		}
+		g, _ := an.StateBefore(at).Implies(gf.FEq(fn.Term(e), gf.Var(listing)))
+		return g
+	}
+	argID, _ := arg.(*ast.Ident)
+	name := "adoptOrphanRevisions: " + types.ExprString(arg)
+	switch {
+	case argID != nil && isListing(stmtOf(hostBody, adoptCall), argID):
+		c.OK("C18.4-every-orphan-adopted", name, adoptCall.Pos(), "the adoption receives the listing itself")
+	case argID == nil:
+		c.Unk("C18.4-every-orphan-adopted", name, adoptCall.Pos(), "the revisions handed to the adoption are not a variable")
+	default:
+		nApp := 0
+		good := true
+		why := ""
+		ownNodes(hostBody, func(x ast.Node) {
+			as, ok := x.(*ast.AssignStmt)
+			if !ok || len(as.Lhs) != 1 || len(as.Rhs) != 1 {
+				return
+			}
+			l, _ := ast.Unparen(as.Lhs[0]).(*ast.Ident)
+			call, _ := ast.Unparen(as.Rhs[0]).(*ast.CallExpr)
+			if l == nil || call == nil || info.ObjectOf(l) != info.ObjectOf(argID) || len(call.Args) != 2 {
+				return
+			}
+			if id, ok := call.Fun.(*ast.Ident); !ok || id.Name != "append" {
+				return
+			}
+			loop, isR := innermostLoop(hostBody, as).(*ast.RangeStmt)
+			if !isR {
+				return
+			}
+			cell := loopCell(loop)
+			if cell == nil || fn.Term(call.Args[1]).Key() != fn.Term(cell).Key() {
+				return
+			}
+			if !isListing(loop, loop.X) {
+				good, why = false, "the collecting loop does not range over the listing"
+				return
+			}
+			nApp++
+			start := loop.Body.List[0]
+			orphan := gf.And(c.Want(fn, loop.Body.Pos(), "metav1.GetControllerOf($1) == nil", cell), c.Want(fn, loop.Body.Pos(), "metav1.GetControllerOfNoCopy($1) == nil", cell))
+			aU := fn.FromUntil(start, an.StateBefore(start).Assume(orphan), as)
+			if head := loopHead(fn, loop); head == nil || aU.BlockReached(head) {
+				good, why = false, "an iteration for a revision without a controller can end without appending it: that orphan is never adopted, and its pods' revision is re-created"
+			}
+			ownNodes(loop.Body, func(y ast.Node) {
+				switch b := y.(type) {
+				case *ast.BranchStmt:
+					if b.Tok == token.BREAK && innermostLoop(hostBody, b) == ast.Stmt(loop) {
+						good, why = false, "the collecting loop can stop early"
+					}
+				case *ast.ReturnStmt:
+					good, why = false, "the collecting loop can return early"
+				}
+			})
+		})
+		if nApp == 0 && good {
+			good, why = false, "no loop over the listing fills the slice handed to the adoption"
+		}
+		c.Check(good, "C18.4-every-orphan-adopted", name, adoptCall.Pos(), "filled by a loop over the whole listing that appends every revision without a controller", why)
+	}
+	// (b) no early success between the start of the label sync and the adoption
+	blk := enclosingBlock(hostBody, adoptCall)
+	var start ast.Stmt
+	if blk != nil {
+		// the label sync if there is one, else the loop that collects the orphans
+		for _, s := range blk.List {
+			if syncCall != nil && contains(s, syncCall) {
+				start = s
+				break
+			}
+		}
+		if start == nil {
+			for _, s := range blk.List {
+				if _, isLoop := s.(*ast.RangeStmt); isLoop && s.Pos() < adoptCall.Pos() {
+					start = s // (the last loop before the adoption)
+				}
+			}
+		}
+	}
+	if start == nil {
+		c.Unk("C18.4-adoption-not-skipped", "adoptOrphanRevisions", adoptCall.Pos(), "no label-sync or collecting loop before the adoption in its block")
+		return
+	}
+	var adoptStmt ast.Node
+	for _, s := range blk.List {
+		if contains(s, adoptCall) {
+			adoptStmt = s
+		}
+	}
+	first := start
+	if rs, ok := start.(*ast.RangeStmt); ok && len(rs.Body.List) > 0 {
+		_ = rs
+	}
+	aU := fn.FromUntil(first, an.StateBefore(first), adoptStmt)
+	n := 0
+	ownNodes(hostBody, func(x ast.Node) {
+		ret, ok := x.(*ast.ReturnStmt)
+		if !ok || contains(ret, adoptCall) || len(ret.Results) == 0 {
+			return
+		}
+		st := aU.StateBefore(ret)
+		if !st.Reachable() {
+			return
+		}
+		n++
+		nm := fmt.Sprintf("adoptOrphanRevisions: return #%d after the label sync started", n)
+		res := ret.Results[len(ret.Results)-1]
+		if g, _ := st.Implies(gf.FNotNil(fn.Term(res))); g {
+			c.OK("C18.4-adoption-not-skipped", nm, ret.Pos(), "returns a non-nil error")
+		} else {
+			c.Bad("C18.4-adoption-not-skipped", nm, ret.Pos(), "can report success before the adoption call: the orphaned revisions stay unadopted and nothing re-queues the set")
+		}
+	})
+	if n == 0 {
+		c.OK("C18.4-adoption-not-skipped", "adoptOrphanRevisions: no return between the label sync and the adoption", adoptCall.Pos(), "straight line")
+	}
+}
+
+// listingKeepsEveryRevision: the loop that filters the listed revisions looks at every one of them (no early exit).
+func (c *Ctx) listingKeepsEveryRevision() {
+	lr := c.Func(load.CtrlPkg, "defaultStatefulSetControl.ListRevisions")
+	if lr == nil {
+		return
+	}
+	n := 0
+	for _, bd := range c.E.FnOf(lr).Bodies() {
+		ast.Inspect(bd, func(x ast.Node) bool {
+			loop, ok := x.(*ast.RangeStmt)
+			if !ok {
+				return true
+			}
+			n++
+			good, why := true, ""
+			ownNodes(loop.Body, func(y ast.Node) {
+				switch b := y.(type) {
+				case *ast.BranchStmt:
+					if (b.Tok == token.BREAK && innermostBreakTarget(loop.Body, b) == nil) || b.Tok == token.GOTO {
+						good, why = false, "stops at "+c.P.Pos(b.Pos())+" before the remaining listed revisions are looked at: revisions of this set behind a foreign or duplicate one are lost, the update revision is then re-created"
+					}
+				case *ast.ReturnStmt:
+					if len(b.Results) > 0 && !isNilExpr(lr.Pkg.TypesInfo, b.Results[len(b.Results)-1]) {
+						return // an error return
+					}
+					good, why = false, "returns at "+c.P.Pos(b.Pos())+" before the remaining listed revisions are looked at"
+				}
+			})
+			c.Check(good, "C18.4-listing-looks-at-every-revision", fmt.Sprintf("ListRevisions: loop #%d", n), loop.Pos(), "no early exit from the filter loop", why)
+			return true
+		})
+	}
+	c.Floor("C18.4-listing-loops", n, 1)
+}
+
+// innermostBreakTarget: the for/switch/select inside body that a `break` at b leaves (nil: it leaves the enclosing loop).
+func innermostBreakTarget(body *ast.BlockStmt, b *ast.BranchStmt) ast.Node {
+	if b.Label != nil {
+		return nil
+	}
+	p := pathTo(body, b)
+	for j := len(p) - 1; j >= 0; j-- {
+		switch p[j].(type) {
+		case *ast.ForStmt, *ast.RangeStmt, *ast.SwitchStmt, *ast.TypeSwitchStmt, *ast.SelectStmt:
+			return p[j]
+		}
+	}
+	return nil
 }
